@@ -2,7 +2,7 @@
 Monitors: solve(), get_solution() (paths/walks, weights, slacks, scaled_slacks), get_objective_value(), model.k for k=None.
 Oracles: reference covering number (z3 set cover), per-edge slack inequality recomputed from the returned routes, exact z3
 optimum over all source-to-sink paths (DAG, exhaustive), bounded witness + DAG/cyclic differential (cyclic)."""
-import collections, hashlib
+import collections, hashlib, fractions
 from fpverif import gen, ref, monitors as M, models, instances as I
 import flowpaths as fp
 
@@ -337,7 +337,8 @@ def run_case(case):
                 if not cyc:
                     cf = None
                     if plr:
-                        cf = {i: next((f for (lo, hi), f in zip(plr[0], plr[1]) if lo <= L <= hi), 1) for i, L in enumerate(lens)}
+                        # (decimal factors such as 0.3 are meant as 3/10: taken at their exact binary value 10 * 0.3 would fall short of 3 by 1e-16)
+                        cf = {i: fractions.Fraction(str(next((f for (lo, hi), f in zip(plr[0], plr[1]) if lo <= L <= hi), 1))) for i, L in enumerate(lens)}
                     best = ref.mpe_min(cols, demand, keff, models.WT[wt], sc, col_factor=cf, superset=case["superset"])
                     if best is not None:
                         obs["c08.dag_optimum_compared"] += 1
